@@ -499,269 +499,8 @@ func completion(c *core.Ctx, fn *core.Fn, short string, w *ast.FuncLit, g *cfgq.
 //	for i := 0; i < len(v) && acc == nil; i++ { acc = v[i] } ... return acc   (accumulator)
 //
 // It returns the node that starts the scan (the range operand / the loop condition).
-func scanFor(info *types.Info, body ast.Node, v types.Object) ast.Node {
-	var scan ast.Node
-	returned := func(o types.Object) bool { // some return statement of body returns o
-		hit := false
-		core.Inspect(body, func(m ast.Node) bool {
-			if ret, ok := m.(*ast.ReturnStmt); ok && len(ret.Results) > 0 && RootObj(info, ret.Results[len(ret.Results)-1]) == o {
-				hit = true
-			}
-			return true
-		})
-		return hit
-	}
-	nonNilArm := func(root ast.Node, stmt ast.Node, val types.Object) bool { // stmt sits in the arm of `if val != nil`
-		ok := false
-		path := core.PathTo(root, stmt)
-		for i := len(path) - 1; i > 0; i-- {
-			ifs, isIf := path[i-1].(*ast.IfStmt)
-			if !isIf || path[i] != ast.Node(ifs.Body) {
-				continue
-			}
-			for _, f := range cfgq.Facts(ifs.Cond, true) {
-				if nn, is := NilCmp(info, f, val); is && nn {
-					ok = true
-				}
-			}
-		}
-		return ok
-	}
-	core.Inspect(body, func(n ast.Node) bool {
-		switch l := n.(type) {
-		case *ast.RangeStmt:
-			if RootObj(info, l.X) != v || l.Value == nil {
-				return true
-			}
-			val := Obj(info, l.Value)
-			core.Inspect(l.Body, func(m ast.Node) bool {
-				switch s := m.(type) {
-				case *ast.ReturnStmt:
-					if len(s.Results) > 0 && Obj(info, s.Results[len(s.Results)-1]) == val && nonNilArm(l.Body, s, val) {
-						scan = l.X
-					}
-				case *ast.AssignStmt:
-					if len(s.Lhs) == 1 && len(s.Rhs) == 1 && Obj(info, s.Rhs[0]) == val && nonNilArm(l.Body, s, val) {
-						if r := Obj(info, s.Lhs[0]); r != nil && returned(r) {
-							scan = l.X
-						}
-					}
-				}
-				return true
-			})
-		case *ast.ForStmt:
-			if l.Cond == nil {
-				return true
-			}
-			// index loop over the whole slice: `for i := 0; i < len(v); i++ { if v[i] != nil { return v[i] } }`
-			// (the element possibly held in a local of the body, or assigned to a variable that is returned)
-			if cnt, isC := LoopCount(info, l).(*ast.CallExpr); isC && len(cnt.Args) == 1 && RootObj(info, cnt.Args[0]) == v && ZeroBased(info, l) {
-				if bi, isB := core.Callee(info, cnt).(*types.Builtin); isB && bi.Name() == "len" {
-					idx := Obj(info, l.Init.(*ast.AssignStmt).Lhs[0])
-					isElem := func(e ast.Expr) bool {
-						ix, ok := Through(info, e).(*ast.IndexExpr)
-						return ok && RootObj(info, ix.X) == v && Obj(info, ix.Index) == idx
-					}
-					inArm := func(stmt ast.Node) bool { // stmt sits in the arm of `if <element> != nil`
-						path := core.PathTo(l.Body, stmt)
-						for i := len(path) - 1; i > 0; i-- {
-							ifs, isIf := path[i-1].(*ast.IfStmt)
-							if !isIf || path[i] != ast.Node(ifs.Body) {
-								continue
-							}
-							for _, f := range cfgq.Facts(ifs.Cond, true) {
-								if be, isB := ast.Unparen(f.Expr).(*ast.BinaryExpr); isB && (be.Op == token.NEQ) == f.Val && (be.Op == token.NEQ || be.Op == token.EQL) {
-									if isElem(be.X) && core.IsNil(info, be.Y) || isElem(be.Y) && core.IsNil(info, be.X) {
-										return true
-									}
-								}
-							}
-						}
-						return false
-					}
-					core.Inspect(l.Body, func(m ast.Node) bool {
-						switch s := m.(type) {
-						case *ast.ReturnStmt:
-							if len(s.Results) > 0 && isElem(s.Results[len(s.Results)-1]) && inArm(s) {
-								scan = l.Cond
-							}
-						case *ast.AssignStmt:
-							if len(s.Lhs) == 1 && len(s.Rhs) == 1 && isElem(s.Rhs[0]) && inArm(s) {
-								if r := Obj(info, s.Lhs[0]); r != nil && returned(r) {
-									scan = l.Cond
-								}
-							}
-						}
-						return true
-					})
-				}
-			}
-			// acc == nil in the condition, acc = v[i] in the body, acc returned
-			for _, f := range cfgq.Facts(l.Cond, true) {
-				be, ok := ast.Unparen(f.Expr).(*ast.BinaryExpr)
-				if !ok || be.Op != token.EQL {
-					continue
-				}
-				acc := Obj(info, be.X)
-				if !core.IsNil(info, be.Y) || acc == nil {
-					continue
-				}
-				core.Inspect(l.Body, func(m ast.Node) bool {
-					if s, ok := m.(*ast.AssignStmt); ok && len(s.Lhs) == 1 && len(s.Rhs) == 1 && Obj(info, s.Lhs[0]) == acc {
-						if ix, ok := ast.Unparen(s.Rhs[0]).(*ast.IndexExpr); ok && RootObj(info, ix.X) == v && returned(acc) {
-							scan = l.Cond
-						}
-					}
-					return true
-				})
-			}
-		}
-		return true
-	})
-	return scan
-}
-
-// successWithout: a success (non-error) return of the body of g is reachable without passing a node accepted by pass.
-func successWithout(g *cfgq.Graph, info *types.Info, body ast.Node, pass func(ast.Node) bool) []string {
-	return g.Path(cfgq.Query{From: g.Entry(), Avoid: pass, TargetExit: func(b *cfg.Block, k cfgq.ExitKind) bool {
-		if k == cfgq.ExitFall {
-			return NormalExit(b, k)
-		}
-		ret, _ := b.Nodes[len(b.Nodes)-1].(*ast.ReturnStmt)
-		return k == cfgq.ExitRet && ret != nil && cfgq.ClassifyReturn(info, body, ret) != cfgq.RetErr
-	}})
-}
-
-// propagate checks that the errors recorded in slice v are returned by fn: by a scan of the slice in fn itself, or
-// in a same-package helper that fn hands the slice to and whose result it returns.
-func propagate(c *core.Ctx, fn *core.Fn, short string, v types.Object) {
-	info := fn.Pkg.TypesInfo
-	g := cfgq.Of(c.Program, fn)
-	key := short + "/" + v.Name()
-	const lost = "a failed restore ends as a successful full sync"
-	if rng := scanFor(info, fn.Decl.Body, v); rng != nil {
-		w := successWithout(g, info, fn.Decl.Body, IsNode(rng))
-		c.Check("R4.propagate", key, rng.Pos(), w == nil, "a success return of "+short+" is reachable without scanning "+v.Name()+" for worker failures: "+lost, w...)
-		return
-	}
-	// one level of helper following: h(v) with the result returned or tested by fn
-	for _, call := range core.Calls(fn.Decl.Body, info, func(call *ast.CallExpr, _ types.Object) bool {
-		for _, a := range call.Args {
-			if Obj(info, a) == v {
-				return true
-			}
-		}
-		return false
-	}) {
-		h := c.FnOf(CalleeF(info, call))
-		if h == nil || h.Decl.Body == nil || h.Pkg != fn.Pkg {
-			continue
-		}
-		var param types.Object
-		i := 0
-		for _, f := range h.Decl.Type.Params.List {
-			for _, nm := range f.Names {
-				if i < len(call.Args) && Obj(info, call.Args[i]) == v {
-					param = info.Defs[nm]
-				}
-				i++
-			}
-		}
-		rng := scanFor(info, h.Decl.Body, param)
-		if param == nil || rng == nil {
-			continue
-		}
-		c.Functions[h.Name()] = true
-		hg := cfgq.Of(c.Program, h)
-		if w := successWithout(hg, info, h.Decl.Body, IsNode(rng)); w != nil {
-			c.Check("R4.propagate", key, rng.Pos(), false, "the helper that scans "+v.Name()+" can return success without scanning it: "+lost, w...)
-			return
-		}
-		// the helper's verdict must be what fn returns
-		cp, ok := g.Find(call)
-		if !ok {
-			continue
-		}
-		if ret, isRet := cp.Node().(*ast.ReturnStmt); isRet && len(ret.Results) > 0 && ast.Unparen(ret.Results[len(ret.Results)-1]) == ast.Expr(call) {
-			w := successWithout(g, info, fn.Decl.Body, IsNode(ret))
-			c.Check("R4.propagate", key, call.Pos(), w == nil, "a success return of "+short+" is reachable without consulting "+v.Name()+" for worker failures: "+lost, w...)
-			return
-		}
-		if ErrCheck(c, g, info, fn.Decl.Body, call, ErrSpec{Rule: "R4.propagate", Key: key, RetOK: true, Consequence: lost}) {
-			w := successWithout(g, info, fn.Decl.Body, IsNode(cp.Node()))
-			if w != nil {
-				c.Check("R4.propagate", key+"/always", call.Pos(), false, "a success return of "+short+" is reachable without consulting "+v.Name()+" for worker failures: "+lost, w...)
-			}
-		}
-		return
-	}
-	// provably never read in fn (outside the workers that write it)?
-	reads := 0
-	core.Inspect(fn.Decl.Body, func(n ast.Node) bool {
-		if id, ok := n.(*ast.Ident); ok && info.Uses[id] == v {
-			reads++
-		}
-		return true
-	})
-	if reads == 0 {
-		c.Failf("R4.propagate", key, fn.Decl.Pos(), "worker failures are stored in %s but %s never reads it: %s", v.Name(), short, lost)
-	} else {
-		c.Undecidedf("R4.propagate", key, fn.Decl.Pos(), "worker failures are stored in %s; how %s turns them into its result is not in a recognised form", v.Name(), short)
-	}
-}
-
-// nilDeref: `c, _ := OpenRedisConn(...)` is tolerated iff the callee returns a
-// nil connection with every error and the connection is dereferenced (method
-// call on the nil interface => runtime panic, process exits non-zero) before
-// anything else can happen. Returns "" if not established.
-func nilDeref(c *core.Ctx, g *cfgq.Graph, info *types.Info, as *ast.AssignStmt, call *ast.CallExpr) string {
-	conn := Obj(info, as.Lhs[0])
-	if conn == nil || !types.IsInterface(conn.Type()) || !nilOnError(c, CalleeF(info, call), 0) {
-		return ""
-	}
-	p, ok := g.Find(as)
-	if !ok {
-		return ""
-	}
-	deref := func(n ast.Node) bool { return MethodCallOn(info, n, conn, "") }
-	w := g.Path(cfgq.Query{From: p, After: true, Avoid: deref, TargetExit: NormalExit,
-		Target: func(n ast.Node) bool { return !deref(n) && core.Mentions(info, n, conn) }})
-	if w != nil {
-		return ""
-	}
-	return "the connection error is discarded, but the callee returns a nil connection with every error and the very next use is a method call on it: the process dies with a nil-dereference panic, i.e. the failure is (crudely) reported, not turned into a success"
-}
-
-func nilOnError(c *core.Ctx, f *types.Func, depth int) bool {
-	fn := c.FnOf(f)
-	if fn == nil || fn.Decl.Body == nil || depth > 3 {
-		return false
-	}
-	info := fn.Pkg.TypesInfo
-	ok, n := true, 0
-	core.Inspect(fn.Decl.Body, func(m ast.Node) bool {
-		ret, isRet := m.(*ast.ReturnStmt)
-		if !isRet {
-			return true
-		}
-		n++
-		switch len(ret.Results) {
-		case 1:
-			call, isCall := ast.Unparen(ret.Results[0]).(*ast.CallExpr)
-			if !isCall || !nilOnError(c, CalleeF(info, call), depth+1) {
-				ok = false
-			}
-		case 2:
-			if !core.IsNil(info, ret.Results[1]) && !core.IsNil(info, ret.Results[0]) {
-				ok = false
-			}
-		default:
-			ok = false
-		}
-		return true
-	})
-	return ok && n > 0
-}
+// partialScan marks loop conditions of scans over the error slice that provably leave slots out.
+var partialScan = map[ast.Node]bool{}
 
 // ---------------------------------------------------------------------------
 // E7 error discipline
